@@ -222,6 +222,27 @@ def build_menu(c, sc, node, pool_sl, u):
     add({"op": "check"}, lambda: node.check())
     add({"op": "to_json/from_json"}, lambda: [node.to_json(), A.Node.from_json(schema, node.to_json())])
     add({"op": "eq(copy)"}, lambda: node.eq(A.Node.from_json(schema, node.to_json())))
+
+    def strip(j):
+        j = dict(j)
+        if "attrs" in j and not model.types[j["type"]].required_attrs:
+            del j["attrs"]
+        if "content" in j:
+            j["content"] = [strip(k) for k in j["content"]]
+        return j
+
+    def edit_json():
+        """The JSON values handed out belong to the caller: editing them in place must not reach any document
+        (incl. nodes created with default attributes, which share NodeType.default_attrs)."""
+        from .c05 import deep_mutate
+
+        bare = A.Node.from_json(schema, strip(node.to_json()))
+        for x in (node, bare, *[ls for _, ls in live_slices[:6]], *[lm for _, lm in live_marks]):
+            j = x.to_json()
+            if j is not None:
+                deep_mutate(j)
+        return [bare]
+    add({"op": "to_json, caller edits the returned value in place"}, edit_json)
     add({"op": "text_content"}, lambda: node.text_content)
     add({"op": "descendants"}, lambda: node.descendants(lambda *a: None))
     add({"op": "diff(self)"}, lambda: [node.content.find_diff_start(A.Node.from_json(schema, node.to_json()).content),
